@@ -290,6 +290,20 @@ def check(ctx):
     ctx.rule("C13.R6", "discriminated union: the datum is handed to the member wrapped with the aliased discriminator key; object nodes unwrap it, remember the key and exempt it from the unexpected-property scan", floor=6)
     from .common_object import object_protocol_rule
     object_protocol_rule(ctx, "C13.R6", ["discriminated"])
+    # wrappers that _factory puts around an object node must let the Discriminated wrapper through untouched
+    fw = model.func(f"{VISITOR}._factory.<locals>.wrapper")
+    wrappers = sorted({(dotted(c.func) or "").split(".")[-1] for c in ast.walk(fw.node) if isinstance(c, ast.Call) and f"{DESER_MOD}.{(dotted(c.func) or '').split('.')[-1]}" in model.classes})
+    ctx.require(len(wrappers) >= 2, f"_factory.wrapper builds {wrappers}: expected ValidatorMethod and CoercerMethod")
+    from ..pathcond import parents_of as _parents_of, path_condition as _path_condition
+    for wname in wrappers:
+        wm = model.find_method(f"{DESER_MOD}.{wname}", "deserialize")
+        pmw = _parents_of(wm.node)
+        for c in ast.walk(wm.node):
+            if isinstance(c, ast.Call) and isinstance(c.func, ast.Attribute) and c.func.attr == "deserialize" and norm(c.func.value).startswith("self.") and c.args:
+                arg = norm(c.args[0])
+                cond = norm(_path_condition(wm.node, c, pmw))
+                ok = arg == "data" or "not isinstance(data, Discriminated)" in cond
+                ctx.check(ok, "C13.R6", f"{wname}:passes-Discriminated", c, f"{wname} (a wrapper _factory can put around an object node) gives its child `{arg}` computed from the datum without letting a Discriminated wrapper through: members of a discriminated union are then rejected ('expected type object, found Discriminated') under the option that adds this wrapper", wm, c, detail="child receives `data` itself, or Discriminated is passed through first")
     dmf = model.func(f"{DESER_MOD}.DiscriminatorMethod.deserialize")
     calls = [c for c in ast.walk(dmf.node) if isinstance(c, ast.Call) and isinstance(c.func, ast.Attribute) and c.func.attr == "deserialize"]
     ok = len(calls) == 1 and calls[0].args and norm(calls[0].args[0]) == "Discriminated(self.alias, data)"
@@ -317,6 +331,7 @@ def mutants(mb):
     mb.add_text("expected-class-default-object", "apischema/serialization/__init__.py", "    else:\n        raise TypeError(f\"{tp} is not supported in union serialization\")", "    else:\n        return object", "C13.R4", "expected_class")
     mb.add_text("discriminator-key-overwrites", S, "        if isinstance(res, dict) and self.alias not in res:\n            res[self.alias] = self.key", "        if isinstance(res, dict):\n            res[self.alias] = self.key", "C13.R4", "DiscriminatedAlternative")
     counter_mutants(mb, "C13.R5")
+    mb.add_text("coercer-swallows-discriminated", M, "        if isinstance(data, Discriminated):\n            # wrapper put by DiscriminatorMethod around an object, nothing to coerce\n            return self.method.deserialize(data)\n", "", "C13.R6", "CoercerMethod")
     mb.add_text("discriminator-key-guard-or", S, "        if isinstance(res, dict) and self.alias not in res:", "        if isinstance(res, dict) or self.alias not in res:", "C13.R4", "DiscriminatedAlternative")
     mb.add_text("discriminator-key-forgotten", M, "            if isinstance(data, Discriminated):\n                discriminator = data.discriminator\n                data = data.data\n                if not isinstance(data, dict):\n                    raise bad_type(data, dict)\n            else:\n                raise bad_type(data, dict)\n        values: dict = {}", "            if isinstance(data, Discriminated):\n                data = data.data\n                if not isinstance(data, dict):\n                    raise bad_type(data, dict)\n            else:\n                raise bad_type(data, dict)\n        values: dict = {}", "C13.R6", "ObjectMethod:discriminated")
     mb.add_text("discriminator-wrap-dropped", M, "            return method.deserialize(Discriminated(self.alias, data))", "            return method.deserialize(data)", "C13.R6", "wrap")
